@@ -47,7 +47,9 @@ def infer_redirection(url, recursive=True):
             target = "https://" + redirection_split[1]
 
     else:
-        obvious_redirect_match = re.search(OBVIOUS_REDIRECTS_RE, url)
+        # NOTE: a redirection hint is a GET parameter: the fragment is never
+        # sent to a server and its "&" or "=" delimit nothing
+        obvious_redirect_match = re.search(OBVIOUS_REDIRECTS_RE, url.split("#", 1)[0])
 
         if obvious_redirect_match is not None:
             if obvious_redirect_match.group(1) == "q":
